@@ -429,4 +429,95 @@ theorem unmarshalQuery_total (env : Env) (n : TName) (q : Bytes) :
       | unmodelled => simp
     · simp
 
+/-! ## the query-parameters reader is the tree reader on the object of its parameters -/
+
+/-- a parameter name the ROR2 key decoding leaves as it is (no escapes, not the empty marker):
+query strings use names verbatim -/
+def PlainKey (k : Bytes) : Prop := decodeKey true k = some k
+
+/-- the state every per-parameter reader ends in -/
+def qpEnd : RS := { rest := [], start := false }
+
+theorem qpLoop_eq_tree (env : Env) (fields : List Field) :
+    ∀ (ps : List (Bytes × JVal)), (∀ e ∈ ps, RawWF e.2 ∧ PlainKey e.1) →
+    ∀ acc seen miss,
+      qpLoop env fields (ps.map (fun e => (e.1, renderRaw e.2))) acc seen miss =
+        (match treeReadEntries (tcOf (qpCfg env)) [] (.record fields) acc seen ps with
+        | .ok r m => .ok (r.1, r.2, miss ++ m) qpEnd
+        | .err e => .err e
+        | .panic => .panic
+        | .unmodelled => .unmodelled)
+  | [], _, acc, seen, miss => by simp [qpLoop, treeReadEntries, qpEnd]
+  | (k, t) :: rest, hps, acc, seen, miss => by
+    obtain ⟨hw, hk⟩ := hps (k, t) (by simp)
+    have hrest := fun e he => hps e (List.mem_cons_of_mem _ he)
+    have ih := qpLoop_eq_tree env fields rest hrest
+    have hnn : t ≠ .null := rawWF_ne_null t hw
+    rw [treeReadEntries_cons _ _ _ _ _ _ _ _ hnn]
+    have hkey : (tcOf (qpCfg env)).sem.key k = some k := hk
+    have hchk : (tcOf (qpCfg env)).tracker.check [Seg.key k] = .no := tracker_check_empty 0 _
+    simp only [hkey, List.nil_append, hchk, List.map_cons, qpLoop, treeCallbackWith]
+    cases hf : findField fields k with
+    | none =>
+      simp only [skip, ↓reduceIte, bindT]
+      rw [ih acc (seen ++ [k]) miss]
+      cases treeReadEntries (tcOf (qpCfg env)) [] (.record fields) acc (seen ++ [k]) rest <;> simp
+    | some f =>
+      have hb := bridge_top (qpCfg env) t hw (3 * (renderRaw t).length + 8)
+        (by have := needT_le t hw; omega) [.key k] f.ty
+      have hq : (!(qpCfg env).query) = false := rfl
+      rw [hq] at hb
+      simp only
+      rw [hb]
+      cases htr : treeRead (tcOf (qpCfg env)) false [.key k] f.ty t with
+      | ok x m1 =>
+        simp only [liftT, bindT, List.nil_append]
+        rw [ih (setEntry acc k x) (seen ++ [k]) (miss ++ m1)]
+        cases treeReadEntries (tcOf (qpCfg env)) [] (.record fields) (setEntry acc k x) (seen ++ [k]) rest <;>
+          simp [List.append_assoc]
+      | err e => simp [liftT, bindT]
+      | panic => simp [liftT, bindT]
+      | unmodelled => simp [liftT, bindT]
+
+/-- **the generated `DecodeQueryParams` on parameters whose values are renderings of raw-token
+trees is the tree reader, at top level, on the object whose members are the parameters** — so
+everything proved about the tree reader for an arbitrary leaf semantics (what is reported missing,
+the top-level outcome, unknown members skipped, no panic) holds for the query-parameters reader -/
+theorem decodeQueryParams_eq_tree (env : Env) (n : TName) (incs : List TName) (own : List Field)
+    (hfind : env.find n = some (.record incs own)) (ps : List (Bytes × JVal))
+    (hps : ∀ e ∈ ps, RawWF e.2 ∧ PlainKey e.1) :
+    decodeQueryParams env n (ps.map (fun e => (e.1, renderRaw e.2))) =
+      liftT (treeRead (tcOf (qpCfg env)) true [] (.ref n) (.obj ps)) qpEnd := by
+  have hfind' : (tcOf (qpCfg env)).env.find n = some (.record incs own) := hfind
+  simp only [decodeQueryParams, hfind, treeRead, hfind']
+  rw [qpLoop_eq_tree env _ ps hps [] [] []]
+  have henv : (tcOf (qpCfg env)).env = env := rfl
+  have htrk : (tcOf (qpCfg env)).tracker = { excl := .empty, ignore := 0 } := rfl
+  simp only [henv, htrk]
+  cases htr : treeReadEntries (tcOf (qpCfg env)) [] (.record (allFields env (includeFuel env) n)) [] [] ps with
+  | ok r m =>
+    simp only [bindT, List.nil_append]
+    cases hfr : finishRecord env { excl := .empty, ignore := 0 } [] true
+        (allFields env (includeFuel env) n) own r.1 r.2 m with
+    | panic => simp [liftT]
+    | missingErr ps' v => simp [liftT]
+    | ok v m' =>
+      -- at the top level the record is returned only when nothing is missing
+      have hm : m' = [] := by
+        unfold finishRecord at hfr
+        split at hfr
+        · cases hfr
+        · split at hfr
+          · cases hfr
+          · next hne =>
+            simp only [RecFin.ok.injEq] at hfr
+            simp only [Bool.true_and, Bool.not_eq_true'] at hne
+            rw [← hfr.2]
+            simpa using hne
+      subst hm
+      simp [liftT, qpEnd]
+  | err e => simp [liftT, bindT]
+  | panic => simp [liftT, bindT]
+  | unmodelled => simp [liftT, bindT]
+
 end Restli.Codec
